@@ -27,10 +27,16 @@ def cp_init(b, k, shape=SHAPE, rank=RANK, nonneg=False):
 # ----------------------------------------------------------------------------- CP family
 @entry("decomposition.parafac", ARR + INIT + ("mask", "mask_init", "fixed_modes", "fixed_last", "fixed_all", "random", "normalize",
                                               "orthogonalise", "linesearch", "sparsity", "l2_reg", "callback", "errors",
-                                              "randomized_svd", "rank_gt_dim", "invalid_init", "invalid_svd"), ALLDT)
+                                              "randomized_svd", "rank_gt_dim", "matrix", "matrix_init", "order4", "invalid_init", "invalid_svd"), ALLDT)
 def _(b, k):
     f = D().parafac
     kw = dict(n_iter_max=IT, tol=0)
+    if k == "matrix":
+        return Call(f, b.lowrank((4, 3), RANK), RANK, normalize_factors=True, **kw)
+    if k == "matrix_init":
+        return Call(f, b.lowrank((4, 3), RANK), RANK, init=b.cp((4, 3), RANK, "tuple", "nonunit"), **kw)
+    if k == "order4":
+        return Call(f, b.lowrank((3, 2, 2, 3), RANK), RANK, **kw)
     if k in ARR:
         return Call(f, b.lowrank(SHAPE, RANK, k), RANK, **kw)
     X = b.lowrank(SHAPE, RANK)
@@ -324,10 +330,12 @@ def tk_init(b, k, nonneg=False, shape=SHAPE, rank=TR):
 TINIT = ("init_tuple", "init_list", "init_obj", "init_tview")
 
 
-@entry("decomposition.tucker", ARR + TINIT + ("mask", "fixed_factors", "fixed_factors_unsorted", "random", "errors", "rank_int", "invalid_fixed", "invalid_svd"), ALLDT)
+@entry("decomposition.tucker", ARR + TINIT + ("matrix", "mask", "fixed_factors", "fixed_factors_unsorted", "random", "errors", "rank_int", "invalid_fixed", "invalid_svd"), ALLDT)
 def _(b, k):
     f = D().tucker
     kw = dict(n_iter_max=IT, tol=0)
+    if k == "matrix":
+        return Call(f, b.lowrank((4, 3), RANK), [2, 2], **kw)
     if k in ARR:
         return Call(f, b.lowrank(SHAPE, RANK, k), TR, **kw)
     X = b.lowrank(SHAPE, RANK)
@@ -528,7 +536,7 @@ def _(b, k):
     return Call(fit, slices(b))
 
 
-@entry("decomposition.robust_pca", ARR + ("mask", "errors"), FLOATS)
+@entry("decomposition.robust_pca", ARR + ("mask", "errors", "matrix", "mask_bool"), FLOATS)
 def _(b, k):
     f = D().robust_pca
     kw = dict(n_iter_max=IT, verbose=0)
@@ -536,6 +544,10 @@ def _(b, k):
         return Call(f, b.arr(SHAPE), mask=b.mask(SHAPE), **kw)
     if k == "errors":
         return Call(f, b.arr(SHAPE), return_errors=True, **kw)
+    if k == "matrix":
+        return Call(f, b.arr((4, 3)), **kw)
+    if k == "mask_bool":
+        return Call(f, b.arr(SHAPE), mask=b.mask(SHAPE, "bool"), **kw)
     return Call(f, b.arr(SHAPE, k), **kw)
 
 
@@ -559,9 +571,11 @@ def _(b, k):
 
 
 # ----------------------------------------------------------------------------- solvers
-def nnls_problem(b, k, cols=3):
-    U = b.arr((5, 3), "fresh", nonneg=True)
-    M = b.arr((5, cols), "fresh", nonneg=True)
+def nnls_problem(b, k, cols=3, mixed=False):
+    """Pre-computed (UtM, UtU); mixed=True: mixed-sign right-hand sides, so that unconstrained
+    solutions have negative entries and the solvers go through their clipping / back-tracking paths."""
+    U = b.arr((5, 3), "fresh", nonneg=not mixed)
+    M = b.arr((5, cols), "fresh", nonneg=not mixed)
     UtM = b.arr((3, cols), akind(k), nonneg=True)
     UtM[...] = U.T @ M
     UtU = b.arr((3, 3), akind(k), nonneg=True)
@@ -569,12 +583,19 @@ def nnls_problem(b, k, cols=3):
     return UtM, UtU
 
 
-@entry("solvers.hals_nnls", ARR + ("V_fresh", "V_tview", "V_sview", "sparsity", "ridge", "nonzero_rows", "callback"), FLOATS,
+@entry("solvers.hals_nnls", ARR + ("V_fresh", "V_tview", "V_sview", "sparsity", "ridge", "nonzero_rows", "callback",
+                                  "mixed", "mixed_V", "single_column"), FLOATS,
        inplace={"": [["kwargs", "V"], ["args", "2"]]})
 def _(b, k):
     from tensorly.solvers.nnls import hals_nnls
-    UtM, UtU = nnls_problem(b, k)
     kw = dict(n_iter_max=5)
+    if k.startswith("mixed"):
+        UtM, UtU = nnls_problem(b, k, mixed=True)
+        return Call(hals_nnls, UtM, UtU, V=b.arr((3, 3), nonneg=True), **kw) if k == "mixed_V" else Call(hals_nnls, UtM, UtU, **kw)
+    if k == "single_column":
+        UtM, UtU = nnls_problem(b, k, cols=1)
+        return Call(hals_nnls, UtM, UtU, **kw)
+    UtM, UtU = nnls_problem(b, k)
     if k.startswith("V_"):
         return Call(hals_nnls, UtM, UtU, V=b.arr((3, 3), k[2:], nonneg=True), **kw)
     if k == "sparsity":
@@ -588,11 +609,25 @@ def _(b, k):
     return Call(hals_nnls, UtM, UtU, **kw)
 
 
-@entry("solvers.fista", ARR + ("x_fresh", "x_tview", "sparsity", "ridge", "unconstrained", "lr"), FLOATS)
+@entry("solvers.fista", ARR + ("x_fresh", "x_tview", "sparsity", "ridge", "unconstrained", "lr", "mixed_x", "mixed_x_sview",
+                              "vector_x", "core_list"), FLOATS)
 def _(b, k):
     from tensorly.solvers.nnls import fista
-    UtM, UtU = nnls_problem(b, k)
     kw = dict(n_iter_max=5)
+    if k.startswith("mixed_x"):
+        UtM, UtU = nnls_problem(b, k, mixed=True)
+        return Call(fista, UtM, UtU, x=b.arr((3, 3), akind(k), nonneg=True), **kw)
+    if k == "vector_x":
+        UtM, UtU = nnls_problem(b, k, cols=1, mixed=True)
+        v = np.ascontiguousarray(UtM[:, 0])
+        return Call(fista, v, UtU, x=b.arr((3,), nonneg=True), **kw)
+    if k == "core_list":            # Tucker core update: UtU is a list of Gram matrices, x a core tensor
+        grams = []
+        for s in (2, 3, 2):
+            u = b.arr((4, s))
+            grams.append((u.T @ u).astype(b.dtype))
+        return Call(fista, b.arr((2, 3, 2)), grams, x=b.arr((2, 3, 2), nonneg=True), lr=0.01, **kw)
+    UtM, UtU = nnls_problem(b, k)
     if k.startswith("x_"):
         return Call(fista, UtM, UtU, x=b.arr((3, 3), k[2:], nonneg=True), **kw)
     if k == "sparsity":
@@ -606,7 +641,7 @@ def _(b, k):
     return Call(fista, UtM, UtU, **kw)
 
 
-@entry("solvers.active_set_nnls", ARR + ("x_fresh", "x_sview", "singular_start"), FLOATS)
+@entry("solvers.active_set_nnls", ARR + ("x_fresh", "x_sview", "singular_start", "mixed", "mixed_x", "mixed_x_sview", "mixed_x_core", "identity_x"), FLOATS)
 def _(b, k):
     from tensorly.solvers.nnls import active_set_nnls
     if k == "singular_start":      # the start's passive set gives a singular system: documented fallback "start from zeros"
@@ -614,6 +649,18 @@ def _(b, k):
         U = np.concatenate([u, u[:, :1]], axis=1)
         m = b.arr((4,), nonneg=True)
         return Call(active_set_nnls, (U.T @ m).astype(b.dtype), (U.T @ U).astype(b.dtype), x=np.ones(3, dtype=b.dtype), n_iter_max=5)
+    if k == "identity_x":           # the least-squares solution on the start's support has a negative entry
+        return Call(active_set_nnls, np.array([1.0, -1.0], dtype=b.dtype), np.eye(2, dtype=b.dtype), x=np.array([0.5, 0.5], dtype=b.dtype), n_iter_max=5)
+    if k.startswith("mixed"):       # mixed-sign right-hand side + positive start: back-tracking path
+        UtM, UtU = nnls_problem(b, k, cols=1, mixed=True)
+        v = np.ascontiguousarray(UtM[:, 0])
+        if k == "mixed":
+            return Call(active_set_nnls, v, UtU, n_iter_max=5)
+        if k == "mixed_x_core":
+            u = b.arr((6, 4))
+            m = b.arr((6,))
+            return Call(active_set_nnls, (u.T @ m).astype(b.dtype), (u.T @ u).astype(b.dtype), x=b.arr((2, 2), nonneg=True), n_iter_max=5)
+        return Call(active_set_nnls, v, UtU, x=b.arr((3,), akind(k), nonneg=True), n_iter_max=5)
     UtM, UtU = nnls_problem(b, k, cols=1)
     v = b.arr((3,), "fresh", nonneg=True)
     v[...] = UtM[:, 0]
@@ -625,7 +672,7 @@ def _(b, k):
 @entry("solvers.admm", ARR + tuple("c_" + n for n, _ in CONSTR) + ("unconstrained",), FLOATS)
 def _(b, k):
     from tensorly.solvers.admm import admm
-    UtM, UtU = nnls_problem(b, k)
+    UtM, UtU = nnls_problem(b, k, mixed=k in ("c_non_negative", "c_l1_reg", "c_simplex"))
     x = b.arr((3, 3), akind(k), nonneg=True)
     dual = b.arr((3, 3), akind(k))
     kw = dict(n_iter_max=4, n_const=1, order=0)
@@ -655,20 +702,22 @@ def _(b, k):
 
 
 # ----------------------------------------------------------------------------- metrics
-def _metric2(name, modname, kinds=ARR + ("axis",), shape=(4, 3), out=None):
+def _metric2(name, modname, kinds=ARR + ("axis", "vector", "vector_sview"), shape=(4, 3), out=None):
     @entry("metrics." + name, kinds, FLOATS, out=out)
     def _b(b, k, name=name, modname=modname, shape=shape):
         import importlib
         m = importlib.import_module("tensorly.metrics." + modname)
         if k == "axis":
             return Call(getattr(m, name), b.arr(shape), b.arr(shape), axis=0)
+        if k.startswith("vector"):
+            return Call(getattr(m, name), b.arr((6,), akind(k)), b.arr((6,), akind(k)))
         return Call(getattr(m, name), b.arr(shape, k), b.arr(shape, k))
     return _b
 
 
 for _n in ("MSE", "RMSE", "reflective_correlation_coefficient", "covariance", "correlation"):
     _metric2(_n, "regression")
-_metric2("R2_score", "regression", kinds=ARR)
+_metric2("R2_score", "regression", kinds=ARR + ("vector", "vector_sview"))
 
 
 @entry("metrics.variance", ARR + ("axis",), FLOATS)
@@ -683,7 +732,7 @@ def _(b, k):
     return Call(f, b.arr((4, 3)), axis=0) if k == "axis" else Call(f, b.arr((4, 3), k))
 
 
-@entry("metrics.congruence_coefficient", ARR + ("lists", "tuples", "signed"), FLOATS, out=[(["1"], "int")])
+@entry("metrics.congruence_coefficient", ARR + ("lists", "tuples", "signed", "single_column"), FLOATS, out=[(["1"], "int")])
 def _(b, k):
     from tensorly.metrics import congruence_coefficient as f
     if k == "lists":
@@ -692,6 +741,8 @@ def _(b, k):
         return Call(f, tuple(b.factors(SHAPE, 3)), tuple(b.factors(SHAPE, 3)))
     if k == "signed":
         return Call(f, b.arr((5, 3)), b.arr((5, 3)), absolute_value=False)
+    if k == "single_column":
+        return Call(f, b.arr((5, 1)), b.arr((5, 1)))
     return Call(f, b.arr((5, 3), k), b.arr((5, 3), k))
 
 
@@ -706,9 +757,11 @@ def _(b, k):
     return Call(f, tuple(f1), tuple(f2)) if form_of(k) == "tuple" else Call(f, f1, f2)
 
 
-@entry("metrics.leverage_score_dist", ARR, FLOATS, out=[([], "float64")])
+@entry("metrics.leverage_score_dist", ARR + ("wide",), FLOATS, out=[([], "float64")])
 def _(b, k):
     from tensorly.metrics import leverage_score_dist as f
+    if k == "wide":
+        return Call(f, b.arr((3, 5)))
     return Call(f, b.arr((5, 3), k))
 
 
@@ -768,7 +821,7 @@ def reg_data(b, k, nout=None):
 REG_OUT = []
 
 
-@entry("regression.CPRegressor", ARR, FLOATS)
+@entry("regression.CPRegressor", ARR + ("y_matrix", "x_matrix"), FLOATS)
 def _(b, k):
     from tensorly.regression import CPRegressor
 
@@ -776,11 +829,15 @@ def _(b, k):
         r = CPRegressor(weight_rank=2, n_iter_max=IT, verbose=0, random_state=1)
         r.fit(X, y)
         return {"weight_tensor_": r.weight_tensor_, "cp_weight_": r.cp_weight_, "vec_W_": r.vec_W_, "predict": r.predict(Xnew)}
+    if k == "y_matrix":
+        return Call(run, b.arr((8, 3, 2)), b.arr((8, 2)), b.arr((3, 3, 2)))
+    if k == "x_matrix":
+        return Call(run, b.arr((8, 4)), b.arr((8,)), b.arr((3, 4)))
     X, y = reg_data(b, k)
     return Call(run, X, y, b.arr((3, 3, 2), akind(k)))
 
 
-@entry("regression.TuckerRegressor", ARR, FLOATS)
+@entry("regression.TuckerRegressor", ARR + ("x_order4",), FLOATS)
 def _(b, k):
     from tensorly.regression import TuckerRegressor
 
@@ -788,15 +845,32 @@ def _(b, k):
         r = TuckerRegressor(weight_ranks=[2, 2], n_iter_max=IT, verbose=0, random_state=1)
         r.fit(X, y)
         return {"weight_tensor_": r.weight_tensor_, "tucker_weight_": r.tucker_weight_, "vec_W_": r.vec_W_, "predict": r.predict(Xnew)}
+    if k == "x_order4":
+        def run4(X, y, Xnew):
+            r = TuckerRegressor(weight_ranks=[2, 2, 2], n_iter_max=IT, verbose=0, random_state=1)
+            r.fit(X, y)
+            return {"weight_tensor_": r.weight_tensor_, "predict": r.predict(Xnew)}
+        return Call(run4, b.arr((8, 3, 2, 2)), b.arr((8,)), b.arr((3, 3, 2, 2)))
     X, y = reg_data(b, k)
     return Call(run, X, y, b.arr((3, 3, 2), akind(k)))
 
 
-@entry("regression.CP_PLSR", ARR + ("fit_transform", "transform_Y", "invalid_predict"), FLOATS)
+PLSR_Y = ("y1d", "yn1", "y2d")
+PLSR_PATHS = ("fit", "fit_transform", "transform_XY", "score")
+
+
+def plsr_y(b, shape_kind, kind="fresh"):
+    if shape_kind == "y1d":
+        return b.arr((8,), kind)
+    return b.arr((8, 1) if shape_kind == "yn1" else (8, 2), kind)
+
+
+@entry("regression.CP_PLSR", ARR + tuple("%s_%s" % (p, y) for p in PLSR_PATHS for y in PLSR_Y)
+       + ("transform_XY_y1d_sview", "transform_XY_y2d_tview", "fit_transform_y1d_sview", "x_matrix_y1d", "invalid_predict", "invalid_Y"), FLOATS)
 def _(b, k):
     from tensorly.regression import CP_PLSR
 
-    def run(X, Y, Xnew):
+    def run(X, Y, Xnew):             # fit, then the three queries on new data
         r = CP_PLSR(2, n_iter_max=IT)
         r.fit(X, Y)
         return {"X_factors": r.X_factors, "Y_factors": r.Y_factors, "coef_": r.coef_, "predict": r.predict(Xnew), "transform": r.transform(Xnew)}
@@ -804,20 +878,39 @@ def _(b, k):
     def run_ft(X, Y):
         return CP_PLSR(2, n_iter_max=IT).fit_transform(X, Y)
 
-    def run_ty(X, Y):
+    def run_ty(X, Y, X2, Y2):         # a fitted model transforms the caller's (X2, Y2)
         r = CP_PLSR(2, n_iter_max=IT).fit(X, Y)
-        return r.transform(X, Y)
+        return r.transform(X2, Y2)
+
+    def run_score(X, Y, X2, Y2):
+        r = CP_PLSR(2, n_iter_max=IT).fit(X, Y)
+        return r.score(X2, Y2)
 
     def run_bad(X, Y, Xnew):
         return CP_PLSR(2, n_iter_max=IT).fit(X, Y).predict(Xnew)
-    X, Y = reg_data(b, k, nout=2)
-    if k == "fit_transform":
-        return Call(run_ft, X, Y)
-    if k == "transform_Y":
-        return Call(run_ty, X, Y)
+    if k in ARR:
+        X, Y = reg_data(b, k, nout=2)
+        return Call(run, X, Y, b.arr((3, 3, 2), akind(k)))
     if k == "invalid_predict":
+        X, Y = reg_data(b, k, nout=2)
         return Call(run_bad, X, Y, b.arr((3, 4, 2))).raises()
-    return Call(run, X, Y, b.arr((3, 3, 2), akind(k)))
+    if k == "invalid_Y":
+        X, Y = reg_data(b, k, nout=2)
+        return Call(run_ty, X, Y, b.arr((8, 3, 2)), b.arr((8, 3))).raises()
+    if k == "x_matrix_y1d":
+        return Call(run_ty, b.arr((8, 4)), b.arr((8,)), b.arr((8, 4)), b.arr((8,)))
+    ak = akind(k)
+    ysh = [y for y in PLSR_Y if y in k][0]
+    ncomp_ok = ysh == "y2d"
+    X = b.arr((8, 3, 2), ak)
+    Y = plsr_y(b, ysh, ak)
+    if k.startswith("fit_transform"):
+        return Call(run_ft, X, Y)
+    if k.startswith("transform_XY"):
+        return Call(run_ty, X, Y, b.arr((8, 3, 2), ak), plsr_y(b, ysh, ak))
+    if k.startswith("score"):
+        return Call(run_score, X, Y, b.arr((8, 3, 2), ak), plsr_y(b, "yn1" if ysh == "y1d" else ysh, ak))
+    return Call(run, X, Y, b.arr((3, 3, 2), ak))
 
 
 # ----------------------------------------------------------------------------- random
